@@ -249,4 +249,134 @@ theorem runActions_inv (sortFn : List Utxo → List Utxo) (hperm : ∀ l, (sortF
           have := ih (i + 1) s1 s2 (done ++ [a]) h2 hb1
           simpa using this
 
+
+/-! ### no output is spent twice (when no output is listed twice) -/
+
+/-- inputs so far are pairwise distinct and each is marked reserved in the keeper -/
+def DInv (s : Keeper × Builder) : Prop :=
+  (s.2.ins.map (·.id)).Nodup ∧ ∀ u ∈ s.2.ins, (mLookup u.id s.1.reserved).isSome = true
+
+def ListedNodup (k : Keeper) : Prop := ∀ useUnc, ((listed k useUnc).map (·.id)).Nodup
+
+theorem buildAction_dinv (sortFn : List Utxo → List Utxo) (hperm : ∀ l, (sortFn l).Perm l) (exp : Nat)
+    (s s' : Keeper × Builder) (a : Action)
+    (h : buildAction sortFn exp s a = (s', none)) (hd : DInv s) (hl : ListedNodup s.1) :
+    DInv s' ∧ ListedNodup s'.1 := by
+  cases a with
+  | control asset amount prog =>
+    simp only [buildAction] at h
+    split_ifs at h with c1 c2
+    · simp at h
+    · simp at h
+    simp only [Prod.mk.injEq, and_true] at h
+    subst h; exact ⟨hd, hl⟩
+  | retire asset amount =>
+    simp only [buildAction] at h
+    split_ifs at h with c1 c2
+    · simp at h
+    · simp at h
+    simp only [Prod.mk.injEq, and_true] at h
+    subst h; exact ⟨hd, hl⟩
+  | spend acct asset amount useUnc =>
+    simp only [buildAction] at h
+    by_cases h0 : (amount == 0) = true
+    · simp [h0] at h
+    · simp only [h0, Bool.false_eq_true, if_false] at h
+      rcases reserveWith_cases sortFn s.1 acct asset amount useUnc 0 exp with ⟨r, hr, hid, hexp, hsub, hge, hch⟩ | ⟨hk, hne⟩
+      · rw [hr] at h
+        simp only at h
+        -- reserved outputs: unreserved before, pairwise distinct
+        have hfree : ∀ u ∈ r.utxos, mLookup u.id s.1.reserved = none := by
+          intro u hu
+          have hm := hsub.subset hu
+          simp only [List.mem_filter, isReserved, Bool.not_eq_true', Option.isSome_eq_false_iff,
+            Option.isNone_iff_eq_none] at hm
+          exact hm.2
+        have hnd : (r.utxos.map (·.id)).Nodup := by
+          have s1 : (r.utxos.map (·.id)).Sublist ((sortFn (findUtxos s.1 acct asset useUnc 0).1).map (·.id)) :=
+            (hsub.trans List.filter_sublist).map _
+          have p1 := ((hperm (findUtxos s.1 acct asset useUnc 0).1).map (·.id))
+          have s2 : ((findUtxos s.1 acct asset useUnc 0).1.map (·.id)).Sublist ((listed s.1 useUnc).map (·.id)) := by
+            simp only [findUtxos, matching]
+            exact (List.filter_sublist.trans List.filter_sublist).map _
+          exact s1.nodup (p1.nodup_iff.mpr (s2.nodup (hl useUnc)))
+        have hnew : DInv (afterReserve s.1 r, { s.2 with ins := s.2.ins ++ r.utxos, rids := s.2.rids ++ [r.id] }) := by
+          constructor
+          · simp only [List.map_append]
+            refine List.Nodup.append hd.1 hnd ?_
+            intro x hx1 hx2
+            obtain ⟨u1, hu1, rfl⟩ := List.mem_map.mp hx1
+            obtain ⟨u2, hu2, he⟩ := List.mem_map.mp hx2
+            have a1 := hd.2 u1 hu1
+            have a2 := hfree u2 hu2
+            have he' : u2.id = u1.id := he
+            rw [he'] at a2
+            rw [a2] at a1
+            simp at a1
+          · intro u hu
+            simp only [List.mem_append] at hu
+            simp only [afterReserve]
+            rw [mLookup_reserveAll]
+            by_cases hm : u.id ∈ r.utxos.map (·.id)
+            · simp [hm]
+            · simp only [hm, if_false]
+              rcases hu with hu | hu
+              · exact hd.2 u hu
+              · exact absurd (List.mem_map_of_mem hu) hm
+        have hl' : ListedNodup (afterReserve s.1 r) := hl
+        by_cases hbad : (r.utxos.takeWhile (fun u => decide (u.amount ≤ maxInt64))).length < r.utxos.length
+        · simp [hbad] at h
+        · simp only [hbad, if_false] at h
+          by_cases hchg : r.change > 0
+          · simp only [hchg, if_true] at h
+            cases hu0 : r.utxos with
+            | nil => rw [hu0] at h; simp at h
+            | cons u0 tl =>
+              rw [hu0] at h
+              simp only at h
+              by_cases hmax : r.change > maxInt64
+              · simp [hmax] at h
+              · simp only [hmax, if_false, Prod.mk.injEq, and_true] at h
+                subst h
+                rw [hu0] at hnew
+                exact ⟨⟨hnew.1, hnew.2⟩, hl'⟩
+          · simp only [hchg, if_false, Prod.mk.injEq, and_true] at h
+            subst h
+            exact ⟨⟨hnew.1, hnew.2⟩, hl'⟩
+      · exfalso
+        cases hres : reserveWith sortFn s.1 acct asset amount useUnc 0 exp with
+        | mk o k' =>
+          rw [hres] at h
+          cases o with
+          | ok r => exact hne r (by rw [hres])
+          | err e => simp at h
+          | panic => simp at h
+
+theorem runActions_dinv (sortFn : List Utxo → List Utxo) (hperm : ∀ l, (sortFn l).Perm l) (exp : Nat) :
+    ∀ (actions : List Action) (i : Nat) (s s' : Keeper × Builder),
+    runActions sortFn exp actions i s = (s', []) → DInv s → ListedNodup s.1 → DInv s' := by
+  intro actions
+  induction actions with
+  | nil =>
+    intro i s s' h hd _
+    simp only [runActions, Prod.mk.injEq, and_true] at h
+    subst h; exact hd
+  | cons a rest ih =>
+    intro i s s' h hd hl
+    simp only [runActions] at h
+    cases h1 : buildAction sortFn exp s a with
+    | mk s1 e =>
+      rw [h1] at h
+      cases h2 : runActions sortFn exp rest (i + 1) s1 with
+      | mk s2 es =>
+        rw [h2] at h
+        simp only [Prod.mk.injEq] at h
+        cases e with
+        | some e => simp at h
+        | none =>
+          simp only at h
+          obtain ⟨rfl, rfl⟩ := h
+          obtain ⟨hd1, hl1⟩ := buildAction_dinv sortFn hperm exp s s1 a h1 hd hl
+          exact ih (i + 1) s1 s2 h2 hd1 hl1
+
 end BytomModel.Lemmas.Builder
